@@ -156,8 +156,7 @@ func zvC11Step(r *vh.Run, u zvC11Uni, hist []zvC11Op) (string, []zvC11Op, bool) 
 		viol := func(sig map[string]string, f string, args ...any) {
 			ok = false
 			if last {
-				sig["session"] = u.Session
-				r.Violation(sig, c, f, args...)
+				r.Violation(sig, c, "["+u.Session+" session] "+f, args...)
 			}
 		}
 		pfxS := zvC11Pfxs[o.P].String()
@@ -283,8 +282,8 @@ func zvC11Step(r *vh.Run, u zvC11Uni, hist []zvC11Op) (string, []zvC11Op, bool) 
 				stored = append(stored, ent{pi[rt.Prefix().String()], v})
 				if o, dup := byID[v.PathID]; dup && o.zvoNoID() != v.zvoNoID() {
 					ok = false
-					r.Violation(vh.Sig("clause", "unique", "where", "table", "differ", zvC11Differ(u, clOf(o), clOf(v)), "session", u.Session), c,
-						"prefix %s: the Adj-RIB-Out stores two different paths under identifier %d\n  %s\n  %s", rt.Prefix(), v.PathID, o, v)
+					r.Violation(vh.Sig("clause", "unique", "where", "table", "differ", zvC11Differ(u, clOf(o), clOf(v))), c,
+						"["+u.Session+" session] prefix %s: the Adj-RIB-Out stores two different paths under identifier %d\n  %s\n  %s", rt.Prefix(), v.PathID, o, v)
 				}
 				byID[v.PathID] = v
 			}
